@@ -34,8 +34,8 @@ from common import Case
 FAMILY = "bounds"
 CORR = "Bounds"
 FAMNUM = 9
-ORACLES = {"prop_ok": 0, "tie_ok": 1}
-OPNAMES = {1: "hll_fn", 2: "cpc_fn", 3: "theta_fn", 4: "hll_sketch", 5: "cpc_sketch", 6: "theta_sketch", 7: "hll_parts"}
+ORACLES = {"prop_ok": 0, "tie_ok": 1, "mc_ok": 2}
+OPNAMES = {1: "hll_fn", 2: "cpc_fn", 3: "theta_fn", 4: "hll_sketch", 5: "cpc_sketch", 6: "theta_sketch", 7: "hll_parts", 8: "monte_carlo"}
 
 
 def fbits(x):
@@ -169,7 +169,31 @@ def sizes(rng, lgk, tier):
                                 rng.randint(0, 8 * k)]))
 
 
+def gen_mc(rng, tier, n):
+    """Monte Carlo configurations (search mode / labelled tests): lg_k x estimator x cardinality, fixed trial counts"""
+    cases = []
+    trials = 2000 if tier == "quick" else 6000
+    grid = []
+    for lgk in (4, 6, 8, 10, 12, 13):
+        k = 1 << lgk
+        for n_items in (max(3, k // 16), k // 2, 2 * k, 8 * k, min(65536, 40 * k)):
+            if n_items * trials > (4e7 if tier == "quick" else 2e8):
+                continue
+            grid.append((0, lgk, rng.randrange(3), n_items))          # HLL streamed (HIP / coupon modes)
+            grid.append((0, lgk, 3 + rng.randrange(3), n_items))      # HLL union (composite)
+            grid.append((1, lgk, 0, n_items))                         # CPC streamed (HIP)
+            grid.append((1, lgk, 1, n_items))                         # CPC union (ICON)
+            if lgk >= 5:
+                grid.append((2, lgk, rng.randrange(8), n_items))      # theta (sampling variants, compact)
+    rng.shuffle(grid)
+    for i, (kind, lgk, var, n_items) in enumerate(grid[:n or len(grid)]):
+        cases.append(Case(i, [], [(8, [kind, lgk, var, n_items, trials, rng.randrange(1 << 40)])], tag="bounds-mc"))
+    return cases
+
+
 def gen(rng, tier, n=None, focus=None):
+    if focus == "mc":
+        return gen_mc(rng, tier, n)
     n = n or (60 if tier == "quick" else 600)
     lgmax = 12 if tier == "quick" else 16
     cases = []
